@@ -205,3 +205,10 @@ Example idct_islow_nonvacuous :
   c_idct_islow_ok (100 :: 90 :: repeat 0 62) (repeat 400 64) = false /\
   asm_idct_islow (100 :: 90 :: repeat 0 62) (repeat 400 64) <> c_idct_islow (100 :: 90 :: repeat 0 62) (repeat 400 64).
 Proof. vm_compute. repeat split; try reflexivity. discriminate. Qed.
+
+(* the whole-block "all AC coefficients zero" test that guards the DC shortcut ORs exactly the rows the models test
+   (rows 1..7; the 4x4 kernel never reads row 4) -- read from the .asm by a register-level row tracker *)
+Theorem idct_zero_ac_rows :
+  zero_ac_rows_jidctint_sse2 = [1; 2; 3; 4; 5; 6; 7] /\ zero_ac_rows_jidctint_avx2 = [1; 2; 3; 4; 5; 6; 7] /\
+  zero_ac_rows_jidctfst_sse2 = [1; 2; 3; 4; 5; 6; 7] /\ zero_ac_rows_jidctred_sse2_4x4 = [1; 2; 3; 5; 6; 7].
+Proof. repeat split; reflexivity. Qed.
